@@ -191,6 +191,37 @@ def run(F, rep):
                   '`%s` is evaluated before / without the test owningModel(%s) == model: for a variable of another model it registers a new internal variable in the model being analysed (an extra constant, or an "unknown type" error), although the message says the variable is ignored'
                   % (render(c)[:50], vname), 'only for variables of the analysed model')
 
+    rep.rule('C20.G2', 'inside Analyser::AnalyserImpl::analyseModel the analysis stops early only on errors: every gate that ends the analysis tests errorCount(); a gate on issueCount()/messageCount()/warningCount() would let the MESSAGE about an ignored or '
+                       'misused external variable turn a valid model INVALID')
+    gates = [c for c in am.walk() if c.get('k') == 'Call' and c.get('mc') and c.get('fn') in ('errorCount', 'issueCount', 'messageCount', 'warningCount') and am.enclosing_lambda(c) is None
+             and any(a.get('k') == 'If' and any(y is c for y in walk(role(a, 'cond') or {})) for a in am.ancestors(c))]
+    if len(gates) < 4:
+        raise AnalysisBroken('analyseModel: only %d gates on the issue counts found (4 confirmed)' % len(gates))
+    for j_, c in enumerate(gates):
+        rep.check(c['fn'] == 'errorCount', 'C20.G2', 'gate#%d|%s' % (j_ + 1, c['fn']), am.where(c), 'analyseModel stops when `%s` is non-zero: messages and warnings (e.g. "marked as an external variable, but it belongs to a different model and will therefore be ignored") end the analysis with an INVALID model' % render(c)[:40],
+                  'errorCount()')
+
+    rep.rule('C20.N2', 'NLA equations are tied into one system by the unknowns they share AFTER the external variables have been taken out of their unknowns (and an equation left without unknowns has been discarded): '
+                       'within one pass over the equations the pruning of mUnknownVariables by isExternalVariable precedes the detection of NLA siblings, otherwise two equations that share only an external variable form one overconstrained system')
+    prunes = [c for c in am.walk() if c.get('k') == 'Call' and c.get('fn') == 'erase' and 'mUnknownVariables' in render(receiver(c)) and any(x.get('k') == 'Ref' and x.get('n') == 'isExternalVariable' for x in walk(c))]
+    sibs = [c for c in am.walk() if c.get('k') == 'Call' and c.get('fn') in ('push_back', 'emplace_back') and 'mNlaSiblings' in render(receiver(c))]
+    if not prunes or not sibs:
+        raise AnalysisBroken('analyseModel: pruning of external unknowns (%d) / NLA sibling detection (%d) not found' % (len(prunes), len(sibs)))
+    for pr in prunes:
+        loop = next((a for a in am.ancestors(pr) if a.get('k') in ('RangeFor', 'For') and any(any(y is sb for y in walk(a)) for sb in sibs)), None)
+        if loop is None:
+            # different loops: the pruning loop must come first
+            ok_ = all(pr.get('l', 0) < sb.get('l', 0) for sb in sibs)
+            rep.check(ok_, 'C20.N2', 'prune-before-siblings', am.where(pr), 'external unknowns are pruned after the NLA siblings were determined', 'pruned in an earlier loop')
+            continue
+        body = role(loop, 'body')
+        items = body.get('c', []) if body.get('k') == 'Compound' else [body]
+        ip = next((k_ for k_, it in enumerate(items) if any(y is pr for y in walk(it))), None)
+        isb = min((k_ for k_, it in enumerate(items) for sb in sibs if any(y is sb for y in walk(it))), default=None)
+        rep.check(ip is not None and isb is not None and ip < isb, 'C20.N2', 'prune-before-siblings', am.where(pr),
+                  'in the pass over the equations the external variables are removed from mUnknownVariables (statement %s of the loop body) after the NLA siblings are determined (statement %s): equations that share only an external variable are tied into one NLA system' % (ip, isb),
+                  'pruned (statement %s) before sibling detection (statement %s)' % (ip, isb))
+
     rep.rule('C20.R1', 'isStateRateBased marks an equation as checked BEFORE it descends into the equation\'s dependencies (user-supplied dependencies of external variables can be cyclic: a depends on b, b on a)')
     isr = F.fn1('Analyser::AnalyserImpl::isStateRateBased')
     recs = [c for c in isr.walk() if c.get('k') == 'Call' and isr.key in F.callee_keys(c)]
